@@ -202,11 +202,19 @@ fn oracle(policy: &str, pipe: &Pipe, nvals: usize, noisy_gaps: &[usize], clean: 
     None
 }
 
-fn tokens(two: bool) -> Vec<Vec<u8>> {
+/// the first four are always used, the whole list with the shortest streams
+const WORDS: [&[u8]; 24] = [
+    b"NaN", b"//", b"\xc2\xa0", b"\xed\xa0\x80", b"True", b"Null", b"NaNa", b"'a'", b"NULL", b"Ia", b"//x", b"/*", b"#", b";", b"\xc2\xa0\xc2\xa0", b"\x0c", b"\x0b", b"\xe2\x80\xa8", b"\xe2\x80\x83",
+    b"\xed\xbf\xbf", b"\xf4\x90\x80\x80", b"\xc0\xaf", b"\xe0\x80\xaf", b"\xf8\x88\x80\x80\x80",
+];
+
+fn tokens(two: bool, words: bool) -> Vec<Vec<u8>> {
     let mut v: Vec<Vec<u8>> = NOISE.iter().map(|b| vec![*b]).collect();
-    // words that are values in other notations (made only of bytes that cannot start a JSON value), and byte sequences
+    // words that are values in other notations, comment openers of other notations and blank characters that are not JSON
+    // white space (all made only of bytes that cannot start a JSON value), and byte sequences
     // that look like UTF-8 but denote no character (an encoded surrogate, a code point above U+10FFFF, an overlong form)
-    for w in [&b"NaN"[..], b"True", b"Null", b"NaNa", b"'a'", b"NULL", b"Ia", b"\xed\xa0\x80", b"\xed\xbf\xbf", b"\xf4\x90\x80\x80", b"\xc0\xaf", b"\xe0\x80\xaf", b"\xf8\x88\x80\x80\x80"] {
+    let word_list: &[&[u8]] = if words { &WORDS } else { &WORDS[..4] };
+    for w in word_list {
         v.push(w.to_vec());
     }
     if two {
@@ -398,8 +406,9 @@ fn many_regions(ctx: &mut Ctx) {
 
 fn run(ctx: &mut Ctx) {
     many_regions(ctx);
-    let t2 = tokens(true);
-    let t1 = tokens(false);
+    let t2 = tokens(true, false);
+    let t2w = tokens(true, true);
+    let t1 = tokens(false, false);
     let (full_len, short_len, kmax) = match ctx.tier {
         Tier::Quick => (2usize, 3usize, 1usize),
         Tier::Thorough => (3, 4, 2),
@@ -411,7 +420,10 @@ fn run(ctx: &mut Ctx) {
             if !ctx.mine() {
                 continue;
             }
-            if len <= full_len {
+            if len + 1 <= full_len {
+                // the long list of lookalike words with the shortest streams only
+                explore_stream(ctx, &idx, &t2w, kmax);
+            } else if len <= full_len {
                 explore_stream(ctx, &idx, &t2, kmax);
             } else {
                 explore_stream(ctx, &idx, &t1, 1);
